@@ -159,6 +159,8 @@ def generate(rng, seed, part):
             items = [rng.choice(nodes) for _ in range(k)]
             kind = "coll_sum" if (ndim == 1 and mode == "fixed" and rng.random() < 0.4) else "sum"
             ops.append({"op": kind, "items": items, "out": nxt})
+            if kind == "coll_sum":
+                ops[-1]["via_add"] = rng.random() < 0.5
             if rng.random() < 0.35:
                 # the usual continuation of a reduction: accumulate further into the sum, in place
                 ops[-1]["then_iadd"] = rng.choice(nodes)
@@ -600,6 +602,14 @@ def execute(plan, ctx, rules=("C05",)):
             pres = [snap(x.h) for x in items]
             if o == "sum":
                 ok, res = attempt(lambda: sum(x.h for x in items))
+            elif op.get("via_add"):
+                def coll_by_add():
+                    # the members enter one by one (the same histogram may well be entered twice: it counts twice)
+                    c = HistogramCollection(items[0].h)
+                    for x in items[1:]:
+                        c.add(x.h)
+                    return c.sum()
+                ok, res = attempt(coll_by_add)
             else:
                 ok, res = attempt(lambda: HistogramCollection(*[x.h for x in items]).sum())
             ctx.ev("reduce", o, tuple(op["items"]), "ok" if ok else exc_tag(res))
